@@ -912,7 +912,9 @@ def _finalize_parse_info(text, nodes, pos, fullparse):
 
     for node in visit(nodes):
         pos_info = node._metadata.position_info
-        if pos_info:
+        # An object that a nested parse has finished already keeps its positions
+        # (they refer to the text of that parse).
+        if pos_info and not isinstance(pos_info, _PositionInfo):
             start, end = pos_info
             # An object that consumed nothing ends where it starts.
             end = max(end - 1, start)
